@@ -1,5 +1,5 @@
 (* Entry point for the extracted executable: decodes cases, runs the model. *)
-From CV Require Import Base.Bytes Base.Glob Supp.Defs.
+From CV Require Import Base.Bytes Base.Glob Supp.Defs Supp.ParseDefs.
 From CV Require Path.Defs.
 Local Open Scope N_scope.
 
@@ -152,6 +152,41 @@ Definition run (fields : list str) : list str :=
                        | None => BAD
                        end
         | [] => BAD
+        end
+      else if tag_is tag [112;108;105;110;101] then            (* "pline" *)
+        match args with
+        | [l] => match parse_line simp l with
+                 | inl p => [[111;107]; pl_id p; pl_file p; dec_of_Z (pl_line p); pl_symbol p; str_of_bool (pl_poly p)]
+                 | inr EFileMissing => [[69]; [102;105;108;101;110;97;109;101;32;105;115;32]]
+                 | inr EBadLine => [[69]; [105;110;118;97;108;105;100;32;108;105;110;101]]
+                 | inr EExtra => [[69]; [117;110;101;120;112;101;99;116;101;100;32;101]]
+                 end
+        | _ => BAD
+        end
+      else if tag_is tag [112;102;105;108;101] then            (* "pfile" *)
+        match args with
+        | [d] => let '(l, ok) := parse_file simp d in
+                 str_of_bool ok :: flat_map (fun p => [pl_id p; pl_file p; dec_of_Z (pl_line p); pl_symbol p]) l
+        | _ => BAD
+        end
+      else if tag_is tag [112;99;111;109;109;101;110;116] then (* "pcomment" *)
+        match args with
+        | [c] => match parse_comment c with
+                 | Some pc => [[49]; pc_id pc; pc_symbol pc; pc_extra pc; str_of_bool (pc_attr_ok pc)]
+                 | None => [[48]]
+                 end
+        | _ => BAD
+        end
+      else if tag_is tag [112;109;117;108;116;105] then        (* "pmulti" *)
+        match args with
+        | [c] => let '(l, ok) := parse_multi c in
+                 str_of_bool ok :: flat_map (fun x => [fst x; snd x]) l
+        | _ => BAD
+        end
+      else if tag_is tag [116;111;115;116;114] then            (* "tostr": id file line symbol *)
+        match args with
+        | [i; f; ln; sy] => [to_string (mkPL i f (zd ln) sy false)]
+        | _ => BAD
         end
       else BAD
   end.
